@@ -60,6 +60,10 @@ GENERAL_PROBES = [
     "-x**2", "2.0**-x", "x**y", "x**-2", "(-x)**2", "x**2**0.5", "x - -y", "x/-y**2", "exp(-x)*log(y**2 + 1.0) + ln(y**2 + 2.0)", "sqrt(y**2) + sin(x)*cos(y) - tan(0.3*x)",
     "asin(0.3*sin(x)) + acos(0.2*cos(y)) - atan(x*y)", "pi*x", "t*x + time", "1e300*x*1e-300", "x**3", "x**4.0", "x**0.5", "x**(-1.0/2.0)", "1.0/x**2", "x/y/2.0", "1.0/(1.0/4.0)",
     "cos(acos(0.0*x))", "a*dy_dt + x",
+    # a branch that is switched off exactly where it is not finite: the conditional must really select, not multiply by 0
+    "Conditional(Gt(x, 0.0), 2.0*log(x), 0.0)", "Conditional(Le(y, 1.0), 0.0, sqrt(y - 1.0))", "Conditional(Eq(x, y), 1.5, 2.0/(x - y))",
+    "Conditional(Gt(x, 0.0), 2.0*log(x), 0)", "Conditional(Le(y, 1.0), 0, sqrt(y - 1.0))", "Conditional(Gt(x, 0), log(x), 0)*a",
+    "Conditional(Lt(x, 0.0), 0.0, x**0.5) + Conditional(Ge(y, 0.0), 0.0, log(-y))", "3.0 + Conditional(Gt(abs(x), 3.0), 1.0/(abs(x) - 3.0), 0.0)*0.0",
 ]
 
 
